@@ -414,16 +414,13 @@ func genEdit(t *rapid.T, o genOpts, old config.Pipeline) (config.Pipeline, []str
 
 // genFault draws the fault of one import. notxn: the Service.Import path creates
 // no transaction, so only Set and plugin faults exist there.
-func genFault(t *rapid.T, notxn, noCommit bool, label string) *FaultSpec {
+func genFault(t *rapid.T, notxn bool, label string) *FaultSpec {
 	if rapid.IntRange(0, 9).Draw(t, label+".fault.any") >= 5 {
 		return nil
 	}
 	kinds := []string{"set", "set", "set", "set", "procnew", "procnew"}
 	if !notxn {
-		kinds = append(kinds, "newtxn")
-		if !noCommit {
-			kinds = append(kinds, "commit", "commit")
-		}
+		kinds = append(kinds, "newtxn", "commit", "commit")
 	}
 	f := &FaultSpec{Kind: rapid.SampledFrom(kinds).Draw(t, label+".fault.kind")}
 	switch f.Kind {
